@@ -844,13 +844,24 @@ func vspecCovered(x int64, start int64, c int64, size int64) bool {
 //@   ensures err == nil ==> msg != nil && fresh(msg) && message.vdefConnSizes(msg) && len(msg.mtypeflags) == 1 && !msg.dirty && len(msg.dbuf) <= 268435460
 //@   ensures[C11:codes] typeis(err, message.ConnackCode) ==> isErr(err, message.ErrInvalidProtocolVersion) || isErr(err, message.ErrIdentifierRejected)
 //@   modifies fields(msg)
-//@ func writeMessage
-//@   flag bodyhash 5637eb96d80c
+// writeMessageBuffer: the bytes go to the connection's socket in one Write; an error of the socket is not a CONNACK code.
+//@ iface net.Conn.Write
 //@   trusted
+//@   results n, err
+//@   flag args self, b
+//@   flag yield
+//@   ensures 0 <= n && n <= len(b)
+//@   ensures[assumed-errtype] !typeis(err, message.ConnackCode)
+//@ func writeMessageBuffer
 //@   results err
+//@   ensures !typeis(err, message.ConnackCode)
+//@   modifies nothing
+//@ func writeMessage
+//@   results err
+//@   requires msg != nil
 //@   ensures[assumed-errtype] !typeis(err, message.ConnackCode)
 //@   ensures[ghostdef-connack] gfield(conn, "nconnack") == old(gfield(conn, "nconnack"))+1 && gfield(conn, "ackcode") == int(ifaceval(msg, *message.ConnackMessage).returnCode) && gfield(conn, "acksp") == ite(ifaceval(msg, *message.ConnackMessage).sessionPresent, 1, 0)
-//@   modifies gfield(conn, "nconnack"), gfield(conn, "ackcode"), gfield(conn, "acksp"), ifaceval(msg, *message.header).remlen, ifaceval(msg, *message.header).dirty
+//@   modifies gfield(conn, "nconnack"), gfield(conn, "ackcode"), gfield(conn, "acksp"), ifaceval(msg, *message.header).remlen, ifaceval(msg, *message.header).dirty, ifaceval(msg, *message.header).packetID, message.gPacketID, gfield(0, "encn"), gfield(0, "encarr"), gfield(0, "encoff"), gfield(0, "encAt")
 //@ extern (*sync.WaitGroup).Add
 //@   pure
 // start: creates the two rings (each satisfying the ring invariant), on the server side re-activates every stored
